@@ -17,7 +17,11 @@ import Spine.DiscoveryGuardThm
     accepted add / reply entry about an entity whose device part is still unknown the announced device address of THAT
     message is stored (`UpdateDeviceAddress`) — before the re-announcement guard, so also when the entry is then skipped;
     the features created by that entry take the entity's device part of that moment (`featureAddressType`), the
-    features kept by a skipped entry keep theirs. Removal does not touch device parts.
+    features kept by a skipped entry keep theirs. Removal does not touch device parts. One more writer:
+    `DeviceLocal.HandleEvent` (device_local.go) writes the device's address INTO the address object of the source
+    feature of an accepted reply when that has no device part (`devSource`).
+    All features of one entity are created by one iteration, so they share one device part (`Dev.feat`); this is exact
+    as long as every message announces a device address (the harness always does).
     Device names are interned to numbers; the empty device name (treated like `nil` by the code) is not modelled. -/
 namespace Spine.Disc
 
@@ -254,6 +258,9 @@ structure Dev where
   addr : Option Nat := none
   ent : List Nat → Option Nat := fun _ => none
   feat : List Nat → Option Nat := fun _ => none
+  /-- have the features of [0] been re-created by the message being processed? (then the message's source feature
+      object is no longer the one in the tree) -/
+  fresh0 : Bool := false
 
 def Dev.set (d : Dev) (a : List Nat) (e f : Option Nat) : Dev :=
   { d with ent := fun x => if x = a then e else d.ent x, feat := fun x => if x = a then f else d.feat x }
@@ -267,7 +274,7 @@ def devFill (cur md : Option Nat) : Option Nat :=
 /-- one accepted `added` / reply entry (one iteration of AddEntityAndFeatures); `md` = the device address the message
     announces in `deviceInformation` -/
 def devAdd (c : Cfg) (feats : List F) (md : Option Nat) (t : Tree) (d : Dev) (ei : EI) : Dev :=
-  d.set ei.addr
+  { d with fresh0 := d.fresh0 || (decide (ei.addr = [0]) && !refreshSkipped c feats t ei) }.set ei.addr
     (devFill (if (findE t ei.addr).isSome then d.ent ei.addr else d.addr) md)
     (if refreshSkipped c feats t ei then d.feat ei.addr
      else devFill (if (findE t ei.addr).isSome then d.ent ei.addr else d.addr) md)
@@ -295,10 +302,20 @@ def devUpdate (d : Dev) (md : Option Nat) : Dev :=
   | some x => { d with addr := some x }
   | none => d
 
-/-- the device parts after one discovery message (members with per-entry handling, `wholeMessage = false`) -/
+/-- `DeviceLocal.HandleEvent` on the device-change event an ACCEPTED reply publishes: the address object of the
+    message's source feature (feature 0 of [0] as it was when the message arrived) gets the device's address written
+    into it if it has no device part. Visible in the tree only if that object is still there, i.e. the reply did not
+    re-create the features of [0]. -/
+def devSource (accepted : Bool) (d : Dev) : Dev :=
+  if accepted && !d.fresh0 && (d.feat [0]).isNone then { d with feat := fun x => if x = [0] then d.addr else d.feat x }
+  else d
+
+/-- the device parts after one discovery message (members with per-entry handling, `wholeMessage = false`) whose source
+    is feature 0 of entity [0] -/
 def devStepG (c : Cfg) (k : Kind) (md : Option Nat) (m : MsgG) (t : Tree) (d : Dev) : Dev :=
   match k with
-  | .reply => devRun (replyEntryG c m.feats) (devReplyEntry c m.feats md) m.ents (t, []) (devUpdate d md)
+  | .reply => devSource (runG (replyEntryG c m.feats) m.ents (t, [])).2
+      (devRun (replyEntryG c m.feats) (devReplyEntry c m.feats md) m.ents (t, []) { devUpdate d md with fresh0 := false })
   | .part => devRun (entryG c m.feats) (devEntry c m.feats md) m.ents (t, []) d
   | .full => devRun (entryG c (fullDiffG m t).feats) (devEntry c (fullDiffG m t).feats md) (fullDiffG m t).ents (t, []) d
 
